@@ -9,9 +9,31 @@ ORACLES = {"c15"}
 
 
 def trace_task(seed):
+    spec = wp.spec_from_seed(seed, boundary=False, finite_clock=None)
+    out = judge_trace(spec)
+    out["seed"] = seed
+    if out["problems"]:
+        key = out["problems"][0][0]
+
+        def fails(sp):
+            try:
+                return any(k == key for k, _ in judge_trace(sp)["problems"])
+            except Exception:
+                return False
+
+        smin = wp.minimise_spec(spec, fails, budget_s=60)
+        o2 = judge_trace(smin)
+        det = [d for k, d in o2["problems"] if k == key]
+        out["problems"] = [(key, det[0] if det else out["problems"][0][1])]
+        out["min_spec"] = wp.jsonable_spec(smin)
+    return out
+
+
+def judge_trace(spec):
     from phyclone.tree import FSCRPDistribution, Tree, TreeJointDistribution
 
-    spec = wp.spec_from_seed(seed, boundary=False, finite_clock=None)
+    spec = wp.unjson_spec(spec)
+    seed = spec.get("seed")
     o = spec["options"]
     h = wp.run_pipeline(spec)
     problems = []
@@ -83,7 +105,8 @@ def run(ctx):
         if out["skipped"]:
             ctx.probe("run_raised_left_to_C19")
         for key, detail in out["problems"]:
-            ctx.violation(key, detail + " | run seed %d" % out["seed"], {"world": "trace", "seed": out["seed"], "key": key})
+            ctx.violation(key, detail + " | found at run seed %d, minimised run description in the replay file" % out["seed"],
+                          {"world": "trace", "seed": out["seed"], "key": key, "spec": out.get("min_spec")})
     n_skipped = sum(1 for o in res if o["skipped"])
     if n_skipped > 0.25 * len(res):
         ctx.cannot_judge("%d of %d simulated runs raised; trace entries cannot be judged (see C19)" % (n_skipped, len(res)))
@@ -106,7 +129,7 @@ def run(ctx):
 def replay(ctx, obj):
     wp.warm_up()
     if obj.get("world") == "trace":
-        out = trace_task(obj["seed"])
+        out = judge_trace(obj["spec"]) if obj.get("spec") else trace_task(obj["seed"])
         for key, detail in out["problems"]:
             if key == obj["key"]:
                 ctx.violation(key, detail, obj)
